@@ -31,8 +31,8 @@ func parseOne(path string) (*ast.File, error) {
 	return parser.ParseFile(token.NewFileSet(), path, nil, 0)
 }
 
-// iotaConsts reads `const ( A T = iota; B; C ... )`.
-func iotaConsts(f *ast.File, first string) ([]string, error) {
+// opIotaConsts reads `const ( A T = iota; B; C ... )`.
+func opIotaConsts(f *ast.File, first string) ([]string, error) {
 	for _, d := range f.Decls {
 		gd, ok := d.(*ast.GenDecl)
 		if !ok || gd.Tok != token.CONST || len(gd.Specs) == 0 {
@@ -120,7 +120,7 @@ func readOpTables(path, first string, withNames bool) (*opTables, error) {
 		return nil, err
 	}
 	t := &opTables{num: map[string]int{}, operands: map[int][]int{}}
-	if t.consts, err = iotaConsts(f, first); err != nil {
+	if t.consts, err = opIotaConsts(f, first); err != nil {
 		return nil, err
 	}
 	for i, n := range t.consts {
@@ -184,7 +184,7 @@ func readOpTables(path, first string, withNames bool) (*opTables, error) {
 	return t, nil
 }
 
-func findFunc(f *ast.File, name string) *ast.FuncDecl {
+func opFindFunc(f *ast.File, name string) *ast.FuncDecl {
 	for _, d := range f.Decls {
 		if fd, ok := d.(*ast.FuncDecl); ok && fd.Recv == nil && fd.Name.Name == name {
 			return fd
@@ -208,7 +208,7 @@ func findFuncInDir(dir, name string) (*ast.FuncDecl, string, error) {
 		if err != nil {
 			return nil, "", err
 		}
-		if fd := findFunc(f, name); fd != nil {
+		if fd := opFindFunc(f, name); fd != nil {
 			return fd, n, nil
 		}
 	}
@@ -568,7 +568,7 @@ func converterFacts(repo string, v1 map[string]int) (jumpClass []int, keepZero i
 	if err != nil {
 		return nil, 0, err
 	}
-	fd := findFunc(f, "convCompFuncV1ToV2")
+	fd := opFindFunc(f, "convCompFuncV1ToV2")
 	if fd == nil {
 		return nil, 0, fmt.Errorf("convCompFuncV1ToV2 not found")
 	}
